@@ -31,7 +31,7 @@ def run_config(chk, config):
     info = {"back": 0, "exits": 0, "probs": [], "vendor_err": 0, "ok_push": 0, "stop_len": 0, "stop_short": 0}
 
     def on_loop(frame, head, H, res, havoc, lid):
-        if frame.key != a.avp_greedy["key"] or eng.mute:
+        if eng.mute or not in_ctx(frame, a.avp_greedy) or not record_loop(res, H.ntrace):
             return
         n0 = H.ntrace
         Lh = None
@@ -46,6 +46,18 @@ def run_config(chk, config):
             if len(pushes) != 1:
                 info["probs"].append("an iteration pushes %d results for one parsed AVP header" % len(pushes))
                 continue
+            # an iteration that only read a header (no payload carve) and goes round again: is the loop certain to stop
+            # after it (e.g. through a flag set on this path)?
+            if not [e for e in evs if e[0] in ("sub", "bytes", "skip") and e[1] == "reader.*"]:
+                cont = continues_after(eng, frame, head, b)
+                vi0, p0 = result_parts(pushes[0][2])
+                nm0 = tables.variant_name(eng, p0) if vi0 == 1 else None
+                if cont is not None and not cont:
+                    info["flag_stops"] = info.get("flag_stops", 0) + 1
+                    if nm0 != "InvalidAVPLength":
+                        info["probs"].append("the loop stops after pushing %s (only an unusable length field may stop it)" % (nm0 or "Ok"))
+                elif nm0 == "InvalidAVPLength":
+                    info["probs"].append("the loop does not stop after reporting an unusable length field (it goes on parsing what follows as records)")
             hv = AvpHeaderView(eng, b, reads)
             if not hv.ok:
                 info["probs"].append("an iteration continues without having parsed a 6-octet header")
@@ -83,6 +95,8 @@ def run_config(chk, config):
         if not pushes:
             if Lh is not None and eng.ent(st, c_le(Lh, Lin.const(5))):
                 info["stop_short"] += 1
+            elif info.get("flag_stops") and not [e for e in evs if e[0] == "read"]:
+                info["stop_len"] += 1         # the exit taken after an iteration that was certain to be the last (judged there)
             else:
                 info["probs"].append("the loop can stop silently with 6 or more octets remaining (path %s)" % st.notes()[-2:])
         else:
@@ -285,6 +299,11 @@ def run_config(chk, config):
 
 def run(chk):
     run_config(chk, "default")
+    # "every AVP record decodes": a record is handed to its decoder unless the H bit (and nothing else in the flag
+    # octet) says it is hidden (C05's header rule)
+    from framework import Sub
+    import rules.c05 as c05
+    Sub(chk, "via C05 | ", lambda k: k.startswith("avp-header-rules")).borrow(c05, "default", 1, "AVP header flag handling")
     if chk.tier == "thorough":
         for cfg in ("debug", "release"):
             run_config(chk, cfg)
